@@ -51,37 +51,47 @@ NoCtn == [entries |-> <<>>, fmt |-> "none"]
 UInit == /\ store = {} /\ links = <<>> /\ now = 1 /\ v = Idle /\ inv \in InvDom
          /\ inv0 = inv /\ ctn = NoCtn /\ wire = <<>> /\ phase = "issue" /\ outcome = "none"
 
-UIssue == /\ phase = "issue" /\ Issue /\ UNCHANGED <<inv0, ctn, wire, phase, outcome>>
+UIssueOf(d) == /\ phase = "issue" /\ IssueOf(d) /\ UNCHANGED <<inv0, ctn, wire, phase, outcome>>
+UIssue == \E d \in Dlgs : UIssueOf(d)
 
 \* the invoker picks its proof list (by CID: the delegation records stand for their CIDs)
-UInvoke == /\ phase = "issue"
-           /\ \E p \in Proofs : links' = p
-           /\ phase' = "invoked"
-           /\ UNCHANGED <<store, inv, now, v, inv0, ctn, wire, outcome>>
+UInvokeWith(p) == /\ phase = "issue"
+                  /\ p \in Proofs /\ links' = p
+                  /\ phase' = "invoked"
+                  /\ UNCHANGED <<store, inv, now, v, inv0, ctn, wire, outcome>>
+UInvoke == \E p \in Proofs : UInvokeWith(p)
 
 SetToSeqU(S) == CHOOSE s \in [1..Cardinality(S) -> S] : \A i, j \in 1..Cardinality(S) : i # j => s[i] # s[j]
 
-UPack == /\ phase = "invoked"
-         /\ \E f \in Fmts :
-              ctn' = [fmt |-> f,
+\* ord: the order in which the delegations are written (any enumeration of the store)
+UPackSeq(f, ord) ==
+         /\ phase = "invoked" /\ f \in Fmts
+         /\ Len(ord) = Cardinality(store) /\ {ord[k] : k \in 1..Len(ord)} = store
+         /\   ctn' = [fmt |-> f,
                       entries |-> <<[kind |-> "inv", tok |-> inv, id |-> <<"orig", inv>>, state |-> "ok"]>> \o
-                                  [k \in 1..Cardinality(store) |->
-                                     [kind |-> "dlg", tok |-> SetToSeqU(store)[k], id |-> <<"orig", SetToSeqU(store)[k]>>, state |-> "ok"]]]
+                                  [k \in 1..Len(ord) |->
+                                     [kind |-> "dlg", tok |-> ord[k], id |-> <<"orig", ord[k]>>, state |-> "ok"]]]
          /\ phase' = "wire"
          /\ UNCHANGED <<store, inv, links, now, v, inv0, wire, outcome>>
+UPackAs(f) == UPackSeq(f, SetToSeqU(store))
+UPack == \E f \in Fmts : UPackAs(f)
 
 \* the adversary's version of a token: its own name as issuer, signed with its own key
 Resigned(e) == [e EXCEPT !.tok.iss = "M", !.id = <<"resigned", e.tok>>]
 
-UWire == /\ phase = "wire" /\ wire = <<>>
-         /\ \E k \in 1..Len(ctn.entries), how \in {"flip", "rewrite", "resign", "drop", "dup"} :
+\* one act of the adversary on entry k (the trace specification allows several in a row)
+WireStep(k, how) ==
+              /\ phase = "wire" /\ k \in 1..Len(ctn.entries)
               /\ (how = "resign" => ctn.entries[k].tok.iss # "M")     \* re-signing its own token changes nothing (or only the signature bytes)
-              /\ wire' = <<[k |-> k, how |-> how, kind |-> ctn.entries[k].kind]>>
+              /\ (how \in {"rewrite", "resign"} => ctn.entries[k].state = "ok")   \* a corrupt token cannot be parsed to be changed
+              /\ wire' = Append(wire, [k |-> k, how |-> how, kind |-> ctn.entries[k].kind])
               /\ ctn' = CASE how \in {"flip", "rewrite"} -> [ctn EXCEPT !.entries[k].state = "bad"]
                           [] how = "resign" -> [ctn EXCEPT !.entries[k] = Resigned(ctn.entries[k])]
                           [] how = "drop" -> [ctn EXCEPT !.entries = SubSeq(ctn.entries, 1, k - 1) \o SubSeq(ctn.entries, k + 1, Len(ctn.entries))]
                           [] how = "dup" -> [ctn EXCEPT !.entries = Append(ctn.entries, ctn.entries[k])]
-         /\ UNCHANGED <<store, inv, links, now, v, inv0, phase, outcome>>
+              /\ UNCHANGED <<store, inv, links, now, v, inv0, phase, outcome>>
+UWire == /\ wire = <<>>
+         /\ \E k \in 1..Len(ctn.entries), how \in {"flip", "rewrite", "resign", "drop", "dup"} : WireStep(k, how)
 
 \* what the executor's reader holds, by entry
 Readable == \A k \in 1..Len(ctn.entries) : ctn.entries[k].state = "ok"
@@ -91,15 +101,17 @@ DlgIds == {ctn.entries[k].id : k \in {j \in 1..Len(ctn.entries) : ctn.entries[j]
 \* a proof (named by the CID of the ORIGINAL delegation) is loadable iff the container still holds those bytes
 Loaded(p) == [k \in 1..Len(p) |-> IF p[k].missing \/ <<"orig", p[k]>> \notin DlgIds THEN [p[k] EXCEPT !.missing = TRUE] ELSE p[k]]
 
+\* what the executor does with the container as it is now
+ExecReaches == Readable /\ Cardinality(Invs) = 1
+ExecInv == (CHOOSE x \in Invs : TRUE).tok
+ExecV == RunV(InitV(ExecInv, Loaded(links), now))
+ExecOutcome == IF ~Readable THEN "unreadable" ELSE IF Cardinality(Invs) # 1 THEN "noinvocation" ELSE ExecV.verdict
+
 UExecute ==
   /\ phase = "wire"
   /\ phase' = "done"
-  /\ IF ~Readable THEN outcome' = "unreadable" /\ UNCHANGED <<inv, v>>
-     ELSE IF Cardinality(Invs) # 1 THEN outcome' = "noinvocation" /\ UNCHANGED <<inv, v>>
-     ELSE LET e == CHOOSE x \in Invs : TRUE IN
-          /\ inv' = e.tok
-          /\ v' = RunV(InitV(e.tok, Loaded(links), now))
-          /\ outcome' = v'.verdict
+  /\ outcome' = ExecOutcome
+  /\ IF ExecReaches THEN inv' = ExecInv /\ v' = ExecV ELSE UNCHANGED <<inv, v>>
   /\ UNCHANGED <<store, links, now, inv0, ctn, wire>>
 
 UNext == UIssue \/ UInvoke \/ UPack \/ UWire \/ UExecute
@@ -116,6 +128,9 @@ EndToEnd == (UDone /\ outcome = "allowed") => Backed(inv, World)
 \* nothing the adversary does to the bytes of an honest invocation is executed in the honest invoker's name
 NoHijack == (UDone /\ outcome = "allowed" /\ inv.iss # "M" /\ wire # <<>> /\ wire[1].kind = "inv")
                => wire[1].how \in {"dup", "drop"} /\ inv = inv0
+
+\* the same for any number of acts: what runs is the invocation as created, or one in the adversary's own name
+NoHijackG == (UDone /\ outcome = "allowed") => (inv = inv0 \/ inv.iss = "M")
 
 Delivered == (UDone /\ wire = <<>> /\ AllRules(inv0, links, now)) => outcome = "allowed"
 
